@@ -108,3 +108,86 @@ def natural_loops(body):
                             st.append(p)
                 loops.setdefault(s, set()).update(blk)
     return loops
+
+
+# ---------------------------------------------------------------------------------------------------------------------
+# Reviewed-site matching that survives a rename / move of the enclosing function.
+# A reviewed panic-capable site is identified by (short function name, kind).  If the function was renamed the name no
+# longer matches; the site is then recognised by its *signature*: what the construct operates on (fields, constants,
+# callee), never names of locals or functions.  tables/panic_signatures.json holds the signatures of the reviewed sites
+# on the reviewed tree (tools/mkpanictable.py); a signature only stands in for a reviewed entry whose own allowance has
+# not been used up by name, so a second, new site with the same shape is still reported.
+
+def _desc(body, op):
+    from .lib import origin, strip_generics, cname
+    if op is None:
+        return ''
+    o = origin(body, op)
+    consts = sorted(str(a[1])[:40] for a in o.atoms if a[0] == 'const')
+    calls = sorted({strip_generics(cname(c)).split('::')[-1] for c in o.calls})
+    flags = sorted(x.split(':')[0] + ':' + x.split(':')[1] if x.startswith('arith:') else x for x in o.flags if x.startswith('arith:') or x in ('len', 'index', 'nz_get'))
+    return 'f=%s c=%s k=%s a=%s' % (','.join(sorted(o.fields)), ','.join(consts), ','.join(calls), ','.join(flags))
+
+
+def site_signature(body, kind, bb):
+    from .lib import strip_generics, cname
+    from .core import op_place
+    t = body.term(bb)
+    if t['k'] == 'assert':
+        p = op_place(t['cond'])
+        parts = []
+        if p is not None:
+            for d in body.defs().get(p['l'], []):
+                if d[2] == 'assign' and d[3]['k'] == 'bin':
+                    parts.append('%s(%s | %s)' % (d[3]['op'], _desc(body, d[3]['l']), _desc(body, d[3]['r'])))
+        return '%s %s' % (kind, ' ; '.join(sorted(parts)))
+    if t['k'] in ('call', 'tailcall'):
+        args = t.get('args', [])
+        return '%s %s(%s)' % (kind, strip_generics(cname(t)).split('::')[-1], ' | '.join(_desc(body, a) for a in args[:2]))
+    return kind
+
+
+_SIG_TABLE = None
+
+
+def panic_signature_table():
+    global _SIG_TABLE
+    if _SIG_TABLE is None:
+        import json, os
+        p = os.path.join(os.path.dirname(os.path.abspath(__file__)), 'tables', 'panic_signatures.json')
+        try:
+            with open(p) as f:
+                _SIG_TABLE = json.load(f)
+        except OSError:
+            _SIG_TABLE = {}
+    return _SIG_TABLE
+
+
+class ReviewedMatcher:
+    """matches panic-capable sites against a reviewed table {(short_fn, kind): (count, reason)}"""
+
+    def __init__(self, prop, reviewed, present_fns):
+        self.prop = prop
+        self.reviewed = reviewed
+        self.used = {}
+        self.present = present_fns           # short_fn labels present in the analysed scope
+        self.sigs = panic_signature_table().get(prop, {})
+        self.recorded = {}                   # for mkpanictable: key -> [signatures]
+
+    def match(self, body, short, kind, bb, cond=None):
+        key = (short, kind)
+        if key in self.reviewed and self.used.get(key, 0) < self.reviewed[key][0] and (cond is None or cond(body, bb)):
+            self.used[key] = self.used.get(key, 0) + 1
+            self.recorded.setdefault('%s|%s' % key, []).append(site_signature(body, kind, bb))
+            return 'reviewed: ' + self.reviewed[key][1]
+        # fallback: same construct in a function that no longer carries the reviewed name
+        sig = site_signature(body, kind, bb)
+        for k, sigs in sorted(self.sigs.items()):
+            fn_, kd = k.rsplit('|', 1)
+            rk = (fn_, kd)
+            if kd != kind or rk not in self.reviewed or fn_ in self.present:
+                continue
+            if sig in sigs and self.used.get(rk, 0) < self.reviewed[rk][0]:
+                self.used[rk] = self.used.get(rk, 0) + 1
+                return 'reviewed (site recognised by what it operates on; reviewed under the name %s): %s' % (fn_, self.reviewed[rk][1])
+        return None
